@@ -1,11 +1,88 @@
 /-
   ptdriver queries of the `eq` family: `(eq <query> args…)`.
   `none` = unparsable query.
+
+  Wire formats
+    TBL   ((Kind (field …)) …)
+    HEAP  ((Kind ((field "value") …) ((field (child …)) …)) …)     node i = i-th entry
+  Queries
+    (eq cmp (TBL …) HEAP i j)   per table four bits: eqStruct on the tree unfoldings,
+                                 semEqB (equal projections), equal `enc`, eqMemo (same heap);
+                                 answer "<wf> <bits> <bits> …"
+    (eq echo HEAP)               the parsed heap, re-serialised
+    (eq size HEAP i)             number of nodes of the tree unfolding of node i
+    (eq work TBL HEAP i j)       number of pair comparisons `eqMemo` performed
 -/
 import PtModel.Sexp
+import PtModel.Eq
 namespace Pt
+open Pt.EqM
 
+namespace EqWire
+
+def parseTbl (x : Sx) : Option (List (String × List String)) := do
+  let rows ← x.asList?
+  rows.mapM fun
+    | .list [.atom k, .list fs] => do
+      let fs ← fs.mapM Sx.asAtom?
+      some (k, fs)
+    | _ => none
+
+def parseAttr : Sx → Option (String × String)
+  | .list [.atom f, .atom v] => some (f, v)
+  | _ => none
+
+def parseKid : Sx → Option (String × List Nat)
+  | .list [.atom f, cs] => do some (f, ← cs.asNats?)
+  | _ => none
+
+def parseNode : Sx → Option HNode
+  | .list [.atom k, .list as, .list cs] => do
+    some { kind := k, attrs := ← as.mapM parseAttr, kids := ← cs.mapM parseKid }
+  | _ => none
+
+def parseHeap (x : Sx) : Option Heap := do
+  let ns ← x.asList?
+  ns.mapM parseNode
+
+def showNode (n : HNode) : String :=
+  let as := " ".intercalate (n.attrs.map fun (f, v) => s!"({f} \"{v}\")")
+  let cs := " ".intercalate (n.kids.map fun (f, cs) =>
+    s!"({f} ({" ".intercalate (cs.map toString)}))")
+  s!"({n.kind} ({as}) ({cs}))"
+
+def showHeap (h : Heap) : String := "(" ++ " ".intercalate (h.map showNode) ++ ")"
+
+def bit (b : Bool) : String := if b then "1" else "0"
+
+end EqWire
+
+open EqWire in
 def handleEq : List Sx → Option String
+  | [.atom "cmp", .list tbls, heap, i, j] => do
+    let ts ← tbls.mapM parseTbl
+    let h ← parseHeap heap
+    let i ← i.asNat?
+    let j ← j.asNat?
+    if i ≥ h.length || j ≥ h.length then none else
+    let a := unfold h i
+    let b := unfold h j
+    let cols := ts.map fun t =>
+      let tb := tblOf t
+      bit (eqStruct tb a b) ++ bit (semEqB tb a b) ++ bit (enc tb a == enc tb b)
+        ++ bit (eqMemo tb true h h i j)
+    some (" ".intercalate ((if h.wfB then "#t" else "#f") :: cols))
+  | [.atom "echo", heap] => do
+    let h ← parseHeap heap
+    some (showHeap h)
+  | [.atom "size", heap, i] => do
+    let h ← parseHeap heap
+    let i ← i.asNat?
+    some (toString (unfold h i).size)
+  | [.atom "work", tbl, heap, i, j] => do
+    let t ← parseTbl tbl
+    let h ← parseHeap heap
+    some (toString (eqMemoWork (tblOf t) true h h (← i.asNat?) (← j.asNat?)))
   | _ => none
 
 end Pt
